@@ -328,3 +328,57 @@ def c02_reparent(o0: int, o1: int, o2: int, n0: int, n1: int) -> bool:
         else:
             q.get_xpath()
     return q.get_xpath() == "/data/" + cur + "/" + N
+
+
+# ---- f: render / edit / render histories on one Survey object (round 3) ----------------------------------
+def c02_render_history(o0: int, o1: int, o2: int, same: bool, n0: int, n1: int) -> bool:
+    """
+    vpre: 0 <= o0 <= 2 and 0 <= o1 <= 2 and 0 <= o2 <= 2
+    vpre: 97 <= n0 <= 122 and 97 <= n1 <= 122
+    vpost: _ == True
+    """
+    N = S(n0, n1)
+    s = Survey(name="data", id_string="x", title="x")
+    g = GroupedSection(name="gg1", type="group", label="L")
+    s.add_child(g)
+    g.add_child(InputQuestion(name=N, type="text", label="L"))
+    g.add_child(InputQuestion(name="zz1", type="text", label="L"))
+    shims.s3_prefill_xpath(s)
+    added = 0
+    dup = False
+    for o in (o0, o1, o2):
+        if o == 0:
+            # add a question to the group: a second element called N (ambiguous) or a fresh name
+            name = N if same else "yy" + str(added)
+            if same:
+                dup = True
+            added += 1
+            g.add_child(InputQuestion(name=name, type="text", label="L"))
+        else:
+            try:
+                if o == 1:
+                    s.validate()
+                root = s.xml()
+            except PyXFormError:
+                if not dup:
+                    return False
+                continue
+            if dup:
+                return False  # two siblings share a name: the form must be rejected, whatever was rendered before
+            if M.closure_violation(root) is not None:
+                return False
+    return True
+
+
+specialise(
+    "C02",
+    "f.render-history",
+    c02_render_history,
+    {"same": [False, True]},
+    timeout=400,
+    kernel=("pyxform.survey:Survey.xml", "pyxform.survey:Survey.validate", "pyxform.section:Section.validate", "pyxform.section:Section._validate_uniqueness_of_element_names", "pyxform.survey:Survey._setup_xpath_dictionary"),
+    shims=("S1", "S2", "S3"),
+    symbolic="history of 3 operations over {add a question to the group, validate+render, render}; question name 2 symbolic letters",
+    bounds="one Survey object rendered repeatedly; the added question repeats the existing name (fixed per instance) or is fresh; every render must reject an ambiguous sibling pair and otherwise satisfy the closure oracle",
+    weight=40,
+)
